@@ -5,6 +5,7 @@ and every arena byte written earlier in the inference (graph inputs, outputs of 
 Each NPU operation / DMA must read only defined bytes; its writes become defined.  SHRAM table slots are defined by DMA and
 invalidated by operations whose buffers cover them.
 """
+import re
 import numpy as np
 
 from . import decode, footprint, isa, shram
@@ -183,6 +184,10 @@ def root_name(t):
 def canonical_name(name):
     """tensor name without the clone suffixes the CPU/NPU partitioning adds"""
     name = str(name)
+    while name.endswith("_npu") or name.endswith("_cpu"):
+        name = name[:-4]
+    # the LSTM unrolling names the views of a state tensor at the successive steps <state>_state#<t>: one persistent tensor, updated in place
+    name = re.sub(r"_state#\d+$", "", name)
     while name.endswith("_npu") or name.endswith("_cpu"):
         name = name[:-4]
     return name
